@@ -22,7 +22,7 @@ func vfC09(c *hx.Ctx) {
 		"(cipher layer, CRC/tag, FEC header, size field, KCP segments, no trailing bytes); FEC type vs position, id order, Reed-Solomon parity of complete groups, nonce/datagram uniqueness; " +
 		"the byte stream reassembled from the wire alone must equal what was written. Non-trivial = a fate vector with at least one fault.")
 	c.Assume("contents and keys are fixed patterns; the README and the wireshark dissector are the wire specification")
-	K := hx.Pick(c, 4, 5)
+	K := hx.Pick(c, 5, 6)
 	c.ByUnit = true
 	grid := vfPairGrid(true)
 	var sel []vfNamedPair
@@ -95,7 +95,7 @@ func vfC09(c *hx.Ctx) {
 	// out-of-band packets share the FEC header: layout, reserved id, no id consumed, parity over data only
 	for _, ciph := range []string{"", "aes-128", "aes-gcm"} {
 		cf := vfPairCfg{Cipher: ciph, DS: 2, PS: 1, SDS: -1, Stream: true, NoDelay: [4]int{1, 10, 2, 1}, Writes: []int{300, 1200, 50, 700}, WritesBack: []int{100}, ReadBuf: 4096, Pool: vrt.PoolEager,
-			Preempt: 1, Switch: 1, Select: 1, Wire: true, Owners: []string{"C09:"}, K: hx.Pick(c, 3, 4), HorizonS: 60}
+			Preempt: 1, Switch: 1, Select: 1, Wire: true, Owners: []string{"C09:"}, K: hx.Pick(c, 4, 5), HorizonS: 60}
 		body := func(p *vfPair) {
 			var wg vrt.WaitGroup
 			wg.Add(2)
@@ -430,7 +430,7 @@ func vfC10(c *hx.Ctx) {
 		"on the session at every position of a traffic history (before traffic, data queued, in flight, after) and on the raw core, followed by continued traffic; accepted => no panic and the bound holds " +
 		"from then on; refused => nothing changed. Non-trivial = SetMtu during traffic or a fault in the fate vector.")
 	c.ByUnit = true
-	K := hx.Pick(c, 3, 4)
+	K := hx.Pick(c, 4, 5)
 	// (i) size bound
 	var grid []vfNamedPair
 	for i, g := range vfPairGrid(false) {
